@@ -81,7 +81,7 @@ Proof. vm_compute. repeat split; reflexivity. Qed.
 (* ------------------------------------------------------------------------------------------------------
    Added in build session 4 (statements re-stated from the proof files by harness tooling; each is closed by
    exact). *)
-From SplipyModel Require Import Proofs.ObjEval Proofs.SplitTiling Proofs.RestrictDirEval Proofs.SplitEndToEnd Proofs.SplitCompose.
+From SplipyModel Require Import Proofs.ObjEval Proofs.SplitTiling Proofs.RestrictDirEval Proofs.SplitEndToEnd Proofs.SplitCompose Transfer.ParamObj Transfer.ParamOps Transfer.ParamOps2.
 Open Scope R_scope.
 Theorem C07_split_insert_spec :
   forall (tol : R) (o : obj R) (d p : nat) (k ks : list R),
@@ -218,4 +218,16 @@ Theorem C07_hypotheses_satisfiable :
            |} 0 3 [0; 0; 0; 1; 2; 3; 3; 3] [1; 3 / 2].
 Proof. exact @ex_hyps. Qed.
 Print Assumptions C07_hypotheses_satisfiable.
+
+Theorem C07_executed_is_proved_split :
+  forall (fuel : nat) (tol : Q) (o : obj Q) (d : nat) (ks : list Q),
+         resmap (map objQ2R) (obj_split fuel tol o d ks) = obj_split fuel (Q2R tol) (objQ2R o) d (map Q2R ks).
+Proof. exact @obj_split_transfer. Qed.
+Print Assumptions C07_executed_is_proved_split.
+
+Theorem C07_executed_is_proved_append :
+  forall (tol : Q) (o1 o2 : obj Q),
+         resmap objQ2R (obj_append tol o1 o2) = obj_append (Q2R tol) (objQ2R o1) (objQ2R o2).
+Proof. exact @obj_append_transfer. Qed.
+Print Assumptions C07_executed_is_proved_append.
 
